@@ -6,6 +6,7 @@ from /repo (`Model/TsInst.lean`), the reference demultiplexer / Annex-B / ADTS p
 -/
 import IpcHub.Lemmas.TsStream
 import IpcHub.Lemmas.TsEs
+import IpcHub.Lemmas.TsHolds
 import IpcHub.Model.TsInst
 namespace IpcHub.Props.C09
 open IpcHub.Ts IpcHub.TsSpec IpcHub.TsLemmas
@@ -70,45 +71,8 @@ theorem c09_stream (fs : List Frame)
       ∧ ccChain 0 (tps.filter (·.pid == genCfg.audioPid)) = true
       ∧ demuxPid genCfg.videoPid tps = some (pesFor genCfg.videoPid fs)
       ∧ demuxPid genCfg.audioPid tps = some (pesFor genCfg.audioPid fs)
-      ∧ (tps.filter (·.pusi)).map (·.pid) = startPids fs := by
-  obtain ⟨tps, hp, hpid, hv, ha, hu, ho⟩ :=
-    writeFrames_parse genCfg c09_source_facts.2.1 c09_source_facts.2.2.2.2.2.2.2.1 fs {} h
-  have h188 := parsePackets_all188 _ _ hp
-  refine ⟨Ts.writeFrames genCfg {} fs, tps, ?_, hp, hpid, hv, ha, ?_, ?_, ho⟩
-  · have hall : ∀ p ∈ genCfg.header.take 188 :: genCfg.header.drop 188 :: Ts.writeFrames genCfg {} fs, p.length = 188 := by
-      intro p hp'
-      rcases List.mem_cons.mp hp' with rfl | hp'
-      · decide +kernel
-      · rcases List.mem_cons.mp hp' with rfl | hp'
-        · decide +kernel
-        · exact h188 p hp'
-    have hcat : writeStream genCfg fs
-        = (genCfg.header.take 188 :: genCfg.header.drop 188 :: Ts.writeFrames genCfg {} fs).flatten := by
-      simp only [writeStream, List.flatten_cons, ← List.append_assoc, List.take_append_drop]
-    rw [hcat]
-    apply chunk188_flatten _ _ _ hall
-    have hl : (genCfg.header.take 188 :: genCfg.header.drop 188 :: Ts.writeFrames genCfg {} fs).flatten.length
-        = 188 * (Ts.writeFrames genCfg {} fs).length + 376 := by
-      simp only [List.flatten_cons, List.length_append]
-      have e1 : (genCfg.header.take 188).length = 188 := by decide +kernel
-      have e2 : (genCfg.header.drop 188).length = 188 := by decide +kernel
-      have e3 : ∀ (l : List (List UInt8)), (∀ p ∈ l, p.length = 188) → l.flatten.length = 188 * l.length := by
-        intro l
-        induction l with
-        | nil => intro _; simp
-        | cons a l ih =>
-          intro hl
-          simp only [List.flatten_cons, List.length_append, List.length_cons, hl a (List.mem_cons_self ..),
-            ih (fun p hp => hl p (List.mem_cons_of_mem _ hp))]
-          omega
-      rw [e1, e2, e3 _ h188]; omega
-    rw [hl]
-    simp only [List.length_cons]
-    omega
-  · obtain ⟨u, hu1, hu2⟩ := hu genCfg.videoPid
-    simp [demuxPid, hu1, hu2]
-  · obtain ⟨u, hu1, hu2⟩ := hu genCfg.audioPid
-    simp [demuxPid, hu1, hu2]
+      ∧ (tps.filter (·.pusi)).map (·.pid) = startPids fs :=
+  writeStream_spec fs h
 
 /-- a frame with an empty payload writes nothing (`if len(frame.Payload) <= 0 { return }`) -/
 theorem c09_empty_payload_writes_nothing (f : Frame) (cc : Nat) (h : f.payload = []) :
@@ -199,7 +163,42 @@ theorem c09_adts (a : Asc) (payload rest : List UInt8) (ptsNs : Int) (f : Frame)
   rw [hm1] at this
   exact this
 
+/-- COMPOSITION — the statement of C09 as ONE predicate, proved of the model for every input.
+    `TsSpec.holds` is the executable specification the check evaluates on the bytes the real
+    code wrote (whole 188-byte packets; PAT + PMT first, announcing H.264 and AAC, CRCs valid;
+    only the announced PIDs; continuity per PID; every PES well formed; per video frame ONE PES
+    whose Annex-B data is the source NAL unit with delimiter / SPS / PPS as `expectedNalsAlts`
+    demands, PTS and DTS the supplied 90 kHz values, random-access flag and PCR = DTS exactly on
+    IDR frames; per AAC frame ONE PES that is one well-formed ADTS frame with the config's
+    profile / frequency index / channels and exactly the source bytes; PES packets start in the
+    order of the frames).  For EVERY list of codec frames in the domain (`AvOk`: video payload
+    not empty, AAC frame below 8185 bytes, time stamps ≥ 0 and below 2^33 ticks; any NAL types,
+    any sizes, any interleaving of video / audio / other frames), every SPS / PPS (known or not)
+    and every ADTS-expressible AudioSpecificConfig, the stream the model's Muxer → packetizers →
+    Writer produce is accepted, and no packetizer panics.  Together with the correspondence run
+    (model bytes = implementation bytes on the generated inputs, facts regenerated) this is the
+    property for the code; a change that breaks a clause shows up as a failing `holds` on the
+    implementation's bytes (oracle finding) or as a broken proof here. -/
+theorem c09_holds (m : Meta) (a : Asc) (frames : List AvFrame) (hasc : m.asc = some a) (ha : AscOk a)
+    (hf : ∀ f ∈ frames, AvOk f) :
+    (muxFrames genCfg m frames).2 = false
+    ∧ holds (paramsOf m.sps m.pps a) (frames.flatMap srcOf)
+        (writeStream genCfg (muxFrames genCfg m frames).1) = .ok () :=
+  ⟨muxFrames_nopanic m frames hf, holds_model m a hasc ha frames hf⟩
+
 /-! ### non-vacuity: the hypotheses are met by concrete, non-trivial values -/
+
+/-- the hypotheses of `c09_holds`: an AAC-LC 44.1 kHz stereo config and a video + audio pair -/
+example : AscOk { objectType := 2, samplingIndex := 4, extSampleRate := 0, extSamplingIndex := 0, channelConfig := 2 } := by
+  unfold AscOk; decide
+
+example : ∀ f ∈ [({ media := .video, dtsNs := 1000000000, ptsNs := 1033366667, payload := [0x65, 0x88, 0x84] } : AvFrame),
+                 { media := .audio, dtsNs := 1000000000, ptsNs := 1000000000, payload := [0x21, 0x10, 0x05] }],
+    AvOk f := by
+  intro f hf
+  simp only [List.mem_cons, List.mem_nil_iff, or_false] at hf
+  rcases hf with rfl | rfl <;> (unfold AvOk TickOk toTicks; decide)
+
 
 /-- a key frame with PTS ≠ DTS satisfies `FrameOk` and has a non-empty payload -/
 example : FrameOk { pid := 256, streamId := 0xe0, dts := 90000, pts := 93003, header := [0,0,0,1,9,0xf0,0,0,1],
